@@ -50,6 +50,9 @@ CHECKS = {
  "C17": dict(cat="exploration", technique="AST interpreter as reference: exhaustive operator-overload matrix vs plain arithmetic; before/after interpretation of every real optimizer.optimize call under a deterministic lazy environment; kernels with passes disabled vs enabled vs oracle",
    text="All operand-kind pairs x operators (direct, reflected, negation, float_product, MultiIndex.global_index) built through the overloads must evaluate to plain arithmetic on the operand values; every optimize call made while compiling the corpus is replayed (deep copy before, result after) in the bounds-checked interpreter and must write identical values; whole kernels generated with the passes replaced by the identity must agree with the normal kernels and the oracle.",
    note="The interpreter defines tree values; int/int division excluded; temp_* arrays created by the passes are not outputs.", ref="3/C17"),
+ "C18": dict(cat="exploration", technique="generated numba module compiled with compile() and executed as plain Python behind an index-checking numba.carray stub, compared kernel-by-kernel with the C JIT kernel on identical buffers and with the oracle; field-by-field descriptor comparison",
+   text="Every form/expression of the corpus that the C backend accepts is generated with language='numba'; the module must be valid Python, each kernel must stay inside the carray sizes it declares and the buffers the contract gives, and must equal the C kernel (5e4 eps) and the oracle; every descriptor field (form, integral, expression) must equal the C descriptor's.",
+   note="Quick tier executes the module as plain Python (numba type inference/compilation not exercised). Four numba defects found and fixed (plus the spellings fixed under C16).", ref="3/C18"),
 }
 NA_REASON = "check not built yet in this round (runtime monitoring applies; see DESIGN.md section 3)"
 
